@@ -201,8 +201,8 @@ def gen_trace10(rng, tier='quick', crit_names=(), targets=()):
                     descs.append({'alg': ai, 'kind': kind, 'op': iname, 'form': 'method',
                                   'shapes': [shapes[j] for j in idx]})
         elif u < 0.82:
-            name = rng.choice(['norm', 'normalized', 'pow', 'dual', 'undual', 'exp', 'grade'] if not light
-                              else ['dual', 'undual', 'grade', 'exp'])
+            name = rng.choice(['norm', 'normalized', 'pow', 'dual', 'undual', 'exp', 'grade', 'deepcopy', 'pickle', 'copy'] if not light
+                              else ['dual', 'undual', 'grade', 'exp', 'deepcopy', 'pickle'])
             dd = {'alg': ai, 'kind': 'meth', 'op': name, 'shapes': [gen_shape(rng, pool, allow_num=False)]}
             if name == 'pow':
                 dd['params'] = [rng.choice([2, 3, -1, -2])]
